@@ -10,5 +10,5 @@ import (
 func TestPropReport(t *testing.T) {
 	vk.Main(t, vk.Spec[rep.ReportCase]{ID: "C04", Facet: "report", Journal: true, Quick: 8000, Thorough: 40000, Gen: rep.GenCase,
 		Check: func(c *rep.ReportCase, o *vk.Obs) []string { return rep.CheckReport(c.P, c.C, o) },
-		Rule:  "generated profiles (recursion, inlined multi-line locations, locations shared between samples, empty stacks, unsymbolized frames with and without mapping, negative values, 1..3 sample types, labels) x granularity x noinlines x showcolumns x sample_index (default/index/name/inuse_ alias) x mean x call_tree x tagroot/tagleaf x format (top,text,tree,peek,traces,dot,topproto), trimming off; oracle: reference model computing flat/cum/edges/total from their definition, read back through independent output parsers; non-trivial = (recursion or inlined or shared location) and >=2 samples with non-zero selected value"})
+		Rule:  "generated profiles (recursion, inlined multi-line locations, locations shared between samples, empty stacks, unsymbolized frames with and without mapping, negative values, 1..3 sample types, labels) x granularity x noinlines x showcolumns x sample_index (default/index/name/inuse_ alias) x mean x call_tree x tagroot/tagleaf x format (top,text,tree,peek,traces,dot,topproto,callgrind,web /top table data), trimming off; oracle: reference model computing flat/cum/edges/total from their definition, read back through independent output parsers; non-trivial = (recursion or inlined or shared location) and >=2 samples with non-zero selected value"})
 }
